@@ -466,7 +466,8 @@ def rule_offer_consistency(ctx):
         dict(what="offered session belongs to the same SRP user and server name",
              dom={"session": [True], "session.valid()": [True], "session.resumable": [True],
                   "session.srpUsername": [None, "a"], "srpUsername": [None, "a", "b"],
-                  "session.serverName": ["x"], "serverName": ["x", "y", None]},
+                  "session.serverName": ["x"], "serverName": ["x", "y", None], "password": [None, "p"]},
+             when=lambda e: bool(e["password"]) == bool(e["srpUsername"]),     # the caller's own argument check
              abort=lambda e: e["session.srpUsername"] != e["srpUsername"] or e["session.serverName"] != e["serverName"],
              msg="a session made for another SRP user or server name must not be offered for resumption")])
     spec_rows(ctx, R, TLSCONN + "_clientSendClientHello", [
